@@ -212,8 +212,10 @@ func (c *ECChain) UnmarshalCBOR(r io.Reader) error {
 	if err := chain.UnmarshalCBOR(r); err != nil {
 		return err
 	}
+	// Always reset the receiver (like the generated decoders do), so that decoding the
+	// empty chain into a used target does not leave the previous tipsets and cached key.
+	*c = ECChain{}
 	if length := len(chain); length > 0 {
-		*c = ECChain{}
 		c.TipSets = make([]*TipSet, length)
 		for i := range length {
 			c.TipSets[i] = &chain[i]
